@@ -32,17 +32,25 @@ def run_c06(pid, tier, seed, replay=None):
             raise vlib.Infra("MC_FitsLayout failed: %s\n%s" % (res.violated, res.out[-1500:]))
         ck.add_tlc("MC_FitsLayout", res)
         exe = vlib.build_driver("fits_driver", "asan")
-        log = os.path.join(wd, "layout.ndjson")
-        rc, so, err, _ = vlib.run_driver(exe, ["layout", str(45 if tier == "quick" else 900), str(seed), log], timeout=3000)
-        if rc != 0:
-            ck.violation({"class": "crash"}, {"what": "fits driver died", "stderr": err[-3000:]})
-            return ck.finish()
-        rows = vlib.read_ndjson(log)
-        for d in _trace(ck, log, "layout", rows):
-            ev = rows[d["line"] - 1]
-            ck.violation({"class": d["kind"], "op": ev["op"], "variant": ev.get("variant"), "how": ev.get("how")},
-                         {"what": "serialisation deviates from FitsLayout: " + d["kind"], "op": ev["op"], "variant": ev.get("variant"), "err": ev.get("err"),
-                          "ndim": (ev.get("T") or {}).get("ndim", ev.get("ndim"))})
+        # the layout log carries whole tables and whole files: it is produced and judged in batches of 45 tables so that neither
+        # this process nor TLC has to hold more than one batch
+        nrows, first = 0, None
+        for batch in range(1 if tier == "quick" else 8):
+            log = os.path.join(wd, "layout.ndjson")
+            rc, so, err, _ = vlib.run_driver(exe, ["layout", "45", str(seed if batch == 0 else seed * 1000 + batch), log], timeout=3000)
+            if rc != 0:
+                ck.violation({"class": "crash"}, {"what": "fits driver died", "stderr": err[-3000:]})
+                return ck.finish()
+            rows = vlib.read_ndjson(log)
+            for d in _trace(ck, log, "layout batch %d" % batch, rows):
+                ev = rows[d["line"] - 1]
+                ck.violation({"class": d["kind"], "op": ev["op"], "variant": ev.get("variant"), "how": ev.get("how")},
+                             {"what": "serialisation deviates from FitsLayout: " + d["kind"], "op": ev["op"], "variant": ev.get("variant"), "err": ev.get("err"),
+                              "ndim": (ev.get("T") or {}).get("ndim", ev.get("ndim"))})
+            nrows += len(rows)
+            if first is None:
+                first = {"op": rows[0]["op"], "T.ndim": rows[0]["T"]["ndim"], "F.hdus": [h["name"] for h in rows[0]["F"]]}
+            del rows
         # shipped reference files keep decoding to the same tables
         ship = os.path.join(wd, "shipped.ndjson")
         rc, so, err, _ = vlib.run_driver(exe, ["shipped", os.path.join(vlib.REPO, "test", "test_data"), ship], timeout=600)
@@ -55,11 +63,11 @@ def run_c06(pid, tier, seed, replay=None):
             elif g and g != r["digest"]:
                 ck.violation({"class": "shipped-decodes-differently", "file": r["file"]}, {"what": "reference file decodes to a different table", "file": r["file"], "digest": r["digest"], "golden": g})
         ck.cov["shipped_files"] = {r["file"]: r["digest"] for r in srows}
-        ck.cov["traces_validated_against_impl"] = len(rows)
-        ck.cov["evaluations"] = len(rows) + len(srows)
-        ck.cov["distinct_nontrivial"] = len(rows)
+        ck.cov["traces_validated_against_impl"] = nrows
+        ck.cov["evaluations"] = nrows + len(srows)
+        ck.cov["distinct_nontrivial"] = nrows
         ck.cov["rule"] = "per random table: one write event (memory/disk alternating), one library round trip, five reads of codec-written files (layout, no EXTENTS, no PERIOD, reversed extensions, single ORDER key)"
-        ck.sample({"op": rows[0]["op"], "T.ndim": rows[0]["T"]["ndim"], "F.hdus": [h["name"] for h in rows[0]["F"]]})
+        ck.sample(first)
         return ck.finish(exhaustive=False)
     finally:
         if not os.environ.get("VERIF_KEEP"):
